@@ -787,10 +787,50 @@ func (ld *Loaded) inferDiscipline(pkg, typ string, st *types.Struct, i int) stri
 			}
 		}
 	}
+	if len(ctors) == 0 {
+		// no constructor declared for the type: the functions that allocate it
+		for _, fns := range ld.fnByKey {
+			for _, fn := range fns {
+				for _, b := range fn.Blocks {
+					for _, in := range b.Instrs {
+						if al, ok := in.(*ssa.Alloc); ok && namedStructKey(deref(al.Type())) == pkg+"."+typ {
+							ctors[strings.TrimPrefix(fnKey(rootFn(fn)), pkg+".")] = true
+						}
+					}
+				}
+			}
+		}
+	}
 	if len(ctors) > 0 {
+		// a function that stores the field only into an object it has just obtained from a declared
+		// constructor (a wrapping constructor such as NewNamedX calling NewX) is a constructor too
+		tname := pkg + "." + typ
+		cand := map[string]bool{}
+		okFn := map[string]bool{}
+		for _, a := range ld.accessesOf(tname, field) {
+			if !a.store {
+				continue
+			}
+			k := fnKey(rootFn(a.fn))
+			if ctors[strings.TrimPrefix(k, pkg+".")] || ctors[k] {
+				continue
+			}
+			if _, seen := okFn[k]; !seen {
+				okFn[k] = true
+			}
+			if a.fn != rootFn(a.fn) || !freshFromCtor(a.fa.X, pkg, ctors) {
+				okFn[k] = false
+			}
+			cand[k] = true
+		}
 		var cl []string
 		for c := range ctors {
 			cl = append(cl, c)
+		}
+		for k := range cand {
+			if okFn[k] {
+				cl = append(cl, strings.TrimPrefix(k, pkg+"."))
+			}
 		}
 		sort.Strings(cl)
 		if try("immutable", strings.Join(cl, ", ")) {
@@ -805,6 +845,33 @@ func (ld *Loaded) inferDiscipline(pkg, typ string, st *types.Struct, i int) stri
 		}
 	}
 	return ""
+}
+
+// freshFromCtor: the value is the result of a call of one of the constructors in the same function
+// (possibly through a type assertion or conversion), i.e. an object nobody else knows yet.
+func freshFromCtor(v ssa.Value, pkg string, ctors map[string]bool) bool {
+	for i := 0; i < 6; i++ {
+		switch t := v.(type) {
+		case *ssa.TypeAssert:
+			v = t.X
+		case *ssa.ChangeInterface:
+			v = t.X
+		case *ssa.ChangeType:
+			v = t.X
+		case *ssa.Extract:
+			v = t.Tuple
+		case *ssa.Call:
+			sc := t.Call.StaticCallee()
+			if sc == nil {
+				return false
+			}
+			k := fnKey(sc)
+			return ctors[k] || ctors[strings.TrimPrefix(k, pkg+".")]
+		default:
+			return false
+		}
+	}
+	return false
 }
 
 // typesPkgOf: the package of a function, also for instantiations of generic functions and
